@@ -737,6 +737,9 @@ func runJob(j job, thorough bool, stop func() bool) *result {
 	if !r.halted {
 		r.fieldMutations()
 	}
+	if !r.halted {
+		r.feeSweep()
+	}
 	return res
 }
 
